@@ -56,13 +56,19 @@ func renameInputInCalls(callable syntax.Callable,
 	oldName, newName string, pipe *syntax.Pipeline, edits editSet) editSet {
 	for _, call := range pipe.Calls {
 		if call.DecId == callable.GetId() {
-			edits = append(edits, renameCallParamEdit{
+			edit := renameCallParamEdit{
 				Pipeline: pipe,
 				File:     syntax.DefiningFile(call),
 				Id:       call.Id,
 				OldParam: oldName,
 				NewParam: newName,
-			})
+			}
+			if call.Bindings != nil {
+				if b := call.Bindings.Table[oldName]; b != nil {
+					edit.Exp = b.Exp
+				}
+			}
+			edits = append(edits, edit)
 		}
 	}
 	return edits
@@ -122,6 +128,8 @@ type (
 		Id       string
 		OldParam string
 		NewParam string
+		// What the parameter is bound to, in case a wildcard supplies it.
+		Exp syntax.Exp
 	}
 )
 
@@ -195,19 +203,21 @@ func (e renameCallParamEdit) apply(call *syntax.CallStm) int {
 	if call.Bindings == nil {
 		return 0
 	}
-	for _, b := range call.Bindings.List {
-		if b.Id == e.OldParam {
-			b.Id = e.NewParam
-
-			if call.Bindings.Table != nil {
-				b, ok := call.Bindings.Table[e.OldParam]
-				if ok {
-					delete(call.Bindings.Table, e.OldParam)
-					call.Bindings.Table[e.OldParam] = b
-				}
+	// If a wildcard supplied the parameter under its old name, it needs an
+	// explicit binding under the new one.
+	if b, added := bindExplicitly(call.Bindings,
+		e.OldParam, e.NewParam, e.Exp); added {
+		return 1
+	} else if b != nil {
+		b.Id = e.NewParam
+		if call.Bindings.Table != nil {
+			b, ok := call.Bindings.Table[e.OldParam]
+			if ok {
+				delete(call.Bindings.Table, e.OldParam)
+				call.Bindings.Table[e.NewParam] = b
 			}
-			return 1
 		}
+		return 1
 	}
 	return 0
 }
